@@ -32,7 +32,18 @@ def bf_inplace(v):
     w = len(v)
     f = UnsignedByteField((_i(v) + 1) % (1 << (8 * w)), w)
     f.as_bytes, int(f), f.hex_str
-    f.value = _i(v)
+    if w and sum(v) % 3 == 1:
+        # the value arrives as the leading octets of a longer buffer (the field takes its own width of it) ...
+        f.value = bytes(v) + b"\xa5\x5a\xa5"
+    elif w and sum(v) % 3 == 2:
+        # ... or an assignment that is refused (one more than the field can hold) comes first: it leaves nothing behind
+        f.value = _i(v)
+        try:
+            f.value = 1 << (8 * w)          # refused: the field keeps the value it had
+        except ValueError:
+            pass
+    else:
+        f.value = _i(v)
     return f
 
 
